@@ -6,9 +6,9 @@ BAR='\\|'
 out=[]
 out.append('## 7a. Seeded changes: what was tried and which checks catch what\n\n')
 R2NOTE=True
-out.append('''One hundred and twenty property-breaking changes (three rounds of two per property) were written by fresh
+out.append('''One hundred and forty property-breaking changes (three rounds of two per property and a fourth of one per property) were written by fresh
 sub-agents that saw only the text of one property and a scratch worktree of /repo — nothing from /verif (rounds 2
-and 3 were additionally told which files and triggering conditions the earlier rounds had used, and asked for others).
+to 4 were additionally told which files and triggering conditions the earlier rounds had used, and asked for others).
 Each compiles and passes falco's whole unedited suite; each was confirmed by me in the author's worktree
 (`bin/seedconfirm`: build, full suite, the author's demonstration with and without the change) before it was kept under
 `/verif/seeded/<id>/` (`patch.diff`, `demonstration/`, the author's `description.md`, `meta.json`).
@@ -17,19 +17,24 @@ without touching committed evidence and restores /repo.
 
 First pass: **round 1 (ids …-1, …-2): 22 of 40 caught as the checks stood, 18 missed; round 2 (ids …-3,
 …-4, run against the checks as strengthened after round 1): 14 of 40 caught, 26 missed; round 3 (ids …-5, …-6,
-against the checks as strengthened after round 2): 18 of 40 caught, 22 missed.** With a handful of
+against the checks as strengthened after round 2): 18 of 40 caught, 22 missed; round 4 (ids …-7, one per property, authors
+told about all six earlier changes and asked for a shape none of them needed): 6 of 20 caught, 14 missed.** With a handful of
 exceptions every miss was an alphabet gap, not an oracle gap: the oracle would have fired had the
 enumeration contained the shape. The exceptions: C04-1 (the reference verdict went through the code
 the change was in), C07-3 / C07-4 (the reference evaluator refuses what the documentation does not
 define; a reference-free law and a pinned-behaviour snapshot were added), C18-4 (the scheduler did not
 own channel operations and the run hung), C11-5 (maps with more than four keys were iterated in natural
 order only), C14-6 / C03 (a known-finding class that was too coarse would have masked it: the class key
-now names the placeholder and the enclosing statement). The checks were extended by the *class* of shape
+now names the placeholder and the enclosing statement), C04-7 (the reference verdict went through the parser the change
+was in: situations named syntax-error-… now carry a by-construction verdict), C08-7 (a deadlock burns no fuel: the
+simulator check had no oracle for a request that blocks forever; a case that has not returned after 90 s is now looked at
+through the goroutine dump and reported only if its body is parked on a lock / channel / wait group), C07-7 (the reference
+evaluator refuses `>>=` on a negative operand; such cells are now compared with the pinned snapshot: decides drift only). The checks were extended by the *class* of shape
 (not by the witness), re-run on the unchanged tree (new findings on HEAD were triaged as in §6: more `fix:`
 commits and known-finding classes came out of these extensions, see below), and all kept changes are
 reported on every run. One change of round 3 (C14-5) is kept as *retired*: studying it exposed the same
 defect on the unchanged tree, and the repair (99f9dbe) makes the change harmless, so there is nothing left
-to detect. That every round still missed about half says plainly what these checks
+to detect. That every round still missed half or more (the last one, whose authors knew six earlier changes per property, 70 %) says plainly what these checks
 are: exhaustive *within their alphabets*, and the alphabets are where the judgement (and the
 remaining risk) is. The table says, per change,
 what it needs to manifest and what happened.
